@@ -33,6 +33,9 @@ fn arb_client_start_count(kind: Kind) -> BoxedStrategy<(u16, u32)> {
         2 => 1u32..=limit.max(1),
         1 => prop::sample::select(vec![0u32, 1969, 1976, 1977, 2000, 2001, 2008, 2009, 2040, 124, 125, 126, 127, 130, 255, 256, 4000]),
         1 => 0u32..2100,
+        // the whole u16 range and its binary boundaries (wrap-arounds in size computations)
+        1 => 0u32..=65535,
+        1 => (0u32..=16, 0u32..3).prop_map(|(k, d)| ((1u32 << k) + d).saturating_sub(1).min(65535)),
     ];
     (count, 0u8..8, any::<u16>())
         .prop_map(|(count, sel, raw)| {
@@ -1225,3 +1228,180 @@ pub fn c11_wrap_run(n: usize) -> CaseResult {
 
 #[allow(dead_code)]
 fn _unused(_: IoKind) {}
+
+
+// ---------------------------------------------------------------------------------------------
+// C03: systematic sweep over the count axis
+
+/// Every read count 0..=65535 (four kinds, two framings) and every write count 0..=2100 plus a
+/// binary lattice up to 70000 (two kinds, two framings), submitted through the client API in
+/// batches and judged by the same oracle as the generated cases.
+pub fn c03_count_sweep(ctx: &crate::runner::Ctx) -> crate::runner::SearchReport {
+    use crate::runner::*;
+    let mut rep = SearchReport::empty(
+        "c03_count_sweep",
+        "enumeration: every read count 0..=65535 x {read coils, discrete inputs, holding, input registers} x {MBAP, RTU} with start 0 and (thorough) start 65536-count; every write-multiple count 0..=2100 and the lattice {2^k-1, 2^k, 2^k+1} up to 70000 x {coils, registers} x {MBAP, RTU}; batches of 256 requests per client session, same oracle as c03_requests. Non-trivial = request with count within 2 of its limit or of a power of two.",
+    );
+    let mut batches: Vec<C03Case> = Vec::new();
+    let thorough = ctx.tier == Tier::Thorough;
+    for fr in [Fr::Mbap, Fr::Rtu] {
+        for kind in [Kind::ReadCoils, Kind::ReadDiscrete, Kind::ReadHolding, Kind::ReadInput] {
+            let mut cur = Vec::new();
+            for count in 0..=65535u32 {
+                let mut starts = vec![0u16];
+                if thorough && count >= 1 {
+                    starts.push((65536 - count) as u16);
+                }
+                for start in starts {
+                    cur.push((
+                        Style::Future,
+                        (count % 251) as u8,
+                        ReqSpec::Read {
+                            kind,
+                            start,
+                            count: count as u16,
+                        },
+                    ));
+                    if cur.len() == 256 {
+                        batches.push(C03Case {
+                            framing: fr,
+                            decode: Decode::NOTHING,
+                            requests: std::mem::take(&mut cur),
+                            select_seed: 1,
+                        });
+                    }
+                }
+            }
+            if !cur.is_empty() {
+                batches.push(C03Case {
+                    framing: fr,
+                    decode: Decode::NOTHING,
+                    requests: cur,
+                    select_seed: 1,
+                });
+            }
+        }
+        for coils in [true, false] {
+            let mut counts: Vec<usize> = (0..=2100).collect();
+            for k in 0..=16u32 {
+                for d in [0usize, 1, 2] {
+                    counts.push(((1usize << k) + d).saturating_sub(1));
+                }
+            }
+            counts.push(65535);
+            counts.push(65536);
+            counts.push(70000);
+            counts.sort();
+            counts.dedup();
+            let mut cur = Vec::new();
+            for n in counts {
+                let req = if coils {
+                    ReqSpec::WriteCoils {
+                        start: 0,
+                        values: (0..n).map(|i| i % 3 == 0).collect(),
+                    }
+                } else {
+                    ReqSpec::WriteRegs {
+                        start: 0,
+                        values: (0..n).map(|i| i as u16).collect(),
+                    }
+                };
+                cur.push((Style::Future, 1u8, req));
+                if cur.len() == 64 {
+                    batches.push(C03Case {
+                        framing: fr,
+                        decode: Decode::NOTHING,
+                        requests: std::mem::take(&mut cur),
+                        select_seed: 1,
+                    });
+                }
+            }
+            if !cur.is_empty() {
+                batches.push(C03Case {
+                    framing: fr,
+                    decode: Decode::NOTHING,
+                    requests: cur,
+                    select_seed: 1,
+                });
+            }
+        }
+    }
+    let batches = std::sync::Arc::new(batches);
+    let next = std::sync::Arc::new(std::sync::atomic::AtomicUsize::new(0));
+    let failure: std::sync::Arc<std::sync::Mutex<Option<(String, C03Case)>>> = Default::default();
+    let mut handles = Vec::new();
+    let counted = std::sync::Arc::new(std::sync::atomic::AtomicU64::new(0));
+    let nontrivial = std::sync::Arc::new(std::sync::atomic::AtomicU64::new(0));
+    for _ in 0..ctx.threads.max(1) {
+        let batches = batches.clone();
+        let next = next.clone();
+        let failure = failure.clone();
+        let counted = counted.clone();
+        let nontrivial = nontrivial.clone();
+        handles.push(std::thread::spawn(move || loop {
+            let i = next.fetch_add(1, std::sync::atomic::Ordering::Relaxed);
+            if i >= batches.len() || failure.lock().unwrap().is_some() {
+                return;
+            }
+            let b = &batches[i];
+            match guarded(|| check_c03(b)) {
+                Ok(Ok(_)) => {
+                    counted.fetch_add(b.requests.len() as u64, std::sync::atomic::Ordering::Relaxed);
+                    let nt = b
+                        .requests
+                        .iter()
+                        .filter(|r| {
+                            let n = r.2.len() as i64;
+                            let lim = r.2.kind().limit() as i64;
+                            (n - lim).abs() <= 2 || (n > 0 && ((n as u64 + 1).is_power_of_two() || (n as u64).is_power_of_two() || (n as u64 - 1).is_power_of_two()))
+                        })
+                        .count();
+                    nontrivial.fetch_add(nt as u64, std::sync::atomic::Ordering::Relaxed);
+                }
+                Ok(Err(m)) => {
+                    *failure.lock().unwrap() = Some((m, b.clone()));
+                }
+                Err(p) => {
+                    *failure.lock().unwrap() = Some((format!("panic: {}", p), b.clone()));
+                }
+            }
+        }));
+    }
+    for h in handles {
+        let _ = h.join();
+    }
+    rep.stats.evaluations = counted.load(std::sync::atomic::Ordering::Relaxed);
+    let nt = nontrivial.load(std::sync::atomic::Ordering::Relaxed);
+    rep.stats.nontrivial_total = nt;
+    for i in 0..nt {
+        rep.stats.distinct.insert(i);
+    }
+    rep.stats.samples.push(serde_json::json!({"kind": "read_holding", "start": 0, "count": 32768, "framing": "Mbap"}));
+    if let Some((m, c)) = failure.lock().unwrap().take() {
+        // shrink by hand: find the single request of the batch that fails alone
+        let mut minimal = c.clone();
+        for r in &c.requests {
+            let one = C03Case {
+                requests: vec![r.clone()],
+                ..c.clone()
+            };
+            if let Ok(Err(_)) | Err(_) = guarded(|| check_c03(&one)) {
+                minimal = one;
+                break;
+            }
+        }
+        rep.failure = Some(Failure {
+            message: m,
+            case: serde_json::to_value(&minimal).unwrap_or(serde_json::Value::Null),
+            hang: false,
+        });
+    } else {
+        rep.exhaustive = true;
+    }
+    rep
+}
+
+pub fn c03_count_sweep_replay(v: &serde_json::Value) -> CaseResult {
+    let c: C03Case = serde_json::from_value(v.clone()).map_err(|e| e.to_string())?;
+    check_c03(&c)
+}
